@@ -18,6 +18,7 @@ import (
 	"github.com/scrapli/scrapligo/driver/netconf"
 	"github.com/scrapli/scrapligo/driver/opoptions"
 	"github.com/scrapli/scrapligo/driver/options"
+	"github.com/scrapli/scrapligo/logging"
 	"github.com/scrapli/scrapligo/response"
 	"github.com/scrapli/scrapligo/util"
 
@@ -112,6 +113,12 @@ type harness struct {
 	idBadKey     string
 	idBadDetail  string
 	stray        int
+	prevBig      bool // the last server message was a reply of >= bigReply bytes ...
+	prevEnd      int  // ... ending at this stream offset
+	bigSent      int
+	bigThenReply int
+	bigThenNotif int
+	notifs       int
 	reads        []readMark
 }
 
@@ -189,9 +196,49 @@ func (h *harness) send(c *devsim.Conn, k int) {
 		c.Mark() // an echo fragment that precedes is delivered apart from the reply
 	}
 	rc.sentStart = c.Generated()
+	if h.prevBig && rc.sentStart == h.prevEnd {
+		h.bigThenReply++ // nothing between the big message and this one
+	}
 	h.srv.Send(c, rc.payload, rc.sizes)
 	rc.sentEnd = c.Generated()
 	rc.sent = true
+	h.prevBig, h.prevEnd = len(rc.payload) >= bigReply, rc.sentEnd
+	if h.prevBig {
+		h.bigSent++
+	}
+	if nt := h.s.Calls[k].Notify; nt != "" {
+		// a notification directly behind the reply, a server message of its own
+		h.srv.Send(c, notification(nt), nil)
+		h.notifs++
+		if h.prevBig {
+			h.bigThenNotif++
+		}
+		h.prevBig, h.prevEnd = false, c.Generated()
+	}
+}
+
+const bigReply = 150 * 1024
+
+func notification(nonce string) []byte {
+	return []byte(`<notification xmlns="urn:ietf:params:xml:ns:netconf:notification:1.0"><eventTime>2026-10-04T12:00:00Z</eventTime>` +
+		`<event xmlns="urn:verif:ev"><nonce>` + nonce + `</nonce></event></notification>`)
+}
+
+// slowConn lets one transport write of a call block for a while before it reaches the device.
+type slowConn struct {
+	*devsim.Conn
+	n, slowAt int
+	delay     time.Duration
+	slowEnd   time.Time
+}
+
+func (s *slowConn) Write(b []byte) error {
+	s.n++
+	if s.n == s.slowAt {
+		time.Sleep(s.delay)
+		s.slowEnd = time.Now()
+	}
+	return s.Conn.Write(b)
 }
 
 // fire releases the armed held replies whose release point is mode.
@@ -366,6 +413,9 @@ func RunSession(s Session) mon.Result {
 	genAtCallStart := 0
 	straddleTimeoutSinceOK := false
 	curCollide := ""
+	curSlow := false
+	lastBigSent := 0
+	bigSinceOK := false // a reply of >= bigReply bytes was put on the wire since the last verified success
 	// echoTailSharedRead: during the current call some reply began in the middle of a transport read
 	// whose first bytes were echoed client bytes (possible only without echo marks).
 	echoTailSharedRead := func() bool {
@@ -397,6 +447,12 @@ func RunSession(s Session) mon.Result {
 		if about && curCollide != "" && !strings.Contains(key, "body-has-") {
 			key += "+body-has-" + curCollide + "-element"
 		}
+		if about && curSlow && !strings.Contains(key, "reply-raced-return-write") {
+			key += "+reply-raced-return-write"
+		}
+		if about && bigSinceOK && !strings.Contains(key, "after-big-reply") {
+			key += "+after-big-reply"
+		}
 		if about && straddleTimeoutSinceOK && !strings.Contains(key, "after-straddle-timeout") {
 			// a reply that straddled its caller's deadline was abandoned since the last verified success
 			key += "+after-straddle-timeout"
@@ -406,7 +462,21 @@ func RunSession(s Session) mon.Result {
 			Events: tail(conn.Log(), 80)}
 	}
 
-	dopts := []util.Option{options.WithCustomTransport(conn), options.WithTimeoutOps(longTimeout)}
+	sc := &slowConn{Conn: conn}
+	dopts := []util.Option{options.WithCustomTransport(sc), options.WithTimeoutOps(longTimeout)}
+	if s.SlowLogUs > 0 {
+		li, lerr := logging.NewInstance(logging.WithLevel("debug"), logging.WithLogger(func(a ...interface{}) {
+			if len(a) == 1 {
+				if m, ok := a[0].(string); ok && strings.Contains(prefix(m, 80), "channel read") {
+					time.Sleep(time.Duration(s.SlowLogUs) * time.Microsecond)
+				}
+			}
+		}))
+		if lerr != nil {
+			return bad("c08/harness-logger", "%v", lerr)
+		}
+		dopts = append(dopts, options.WithLogger(li))
+	}
 	if s.ReadDelayMs > 0 {
 		// never 0 (busy polling); larger than the default widens the time a delivered tail sits in
 		// the channel queue before the NETCONF read loop picks it up
@@ -457,6 +527,8 @@ func RunSession(s Session) mon.Result {
 		}
 		conn.Do(func() { h.cur = k; h.writesInCall = 0; genAtCallStart = conn.Generated() })
 		curCollide = call.Collide
+		curSlow = call.SlowWrite > 0
+		sc.n, sc.slowAt, sc.delay, sc.slowEnd = 0, call.SlowWrite, time.Duration(call.SlowMs)*time.Millisecond, time.Time{}
 		start := time.Now()
 		var tailDone chan struct{}
 		if call.Plan == "straddle" {
@@ -490,6 +562,9 @@ func RunSession(s Session) mon.Result {
 			h.cur = -1
 			rc = h.recs[k]
 			idKey, idDetail, proto, stray = h.idBadKey, h.idBadDetail, srv.ProtoErr, h.stray
+			if h.bigSent > lastBigSent {
+				lastBigSent, bigSinceOK = h.bigSent, true
+			}
 			delivered = conn.DeliveredLocked()
 			for i := 0; i < k; i++ {
 				if s.Calls[i].Plan == "late" && h.recs[i].sent && delivered >= h.recs[i].sentEnd {
@@ -510,6 +585,12 @@ func RunSession(s Session) mon.Result {
 		}
 		if call.Collide != "" {
 			tagset["collide="+call.Collide] = true
+		}
+		if call.SlowWrite > 0 {
+			tagset[fmt.Sprintf("slow-return-write=%d", call.SlowWrite)] = true
+		}
+		if call.Notify != "" {
+			tagset["notification-behind-reply"] = true
 		}
 		desc := fmt.Sprintf("#%d %s plan=%s", k, call.Kind, call.Plan)
 		if rc.reqSeen > 0 {
@@ -534,6 +615,15 @@ func RunSession(s Session) mon.Result {
 		}
 		if call.Collide != "" {
 			desc += " body-has-" + call.Collide
+		}
+		if call.FillLen >= bigReply {
+			desc += fmt.Sprintf(" big=%dKiB", call.FillLen/1024)
+		}
+		if call.Notify != "" {
+			desc += " +notification"
+		}
+		if call.SlowWrite > 0 {
+			desc += fmt.Sprintf(" return-write-blocked-%dms", call.SlowMs)
 		}
 
 		// --- what the server saw -------------------------------------------------------------
@@ -593,6 +683,12 @@ func RunSession(s Session) mon.Result {
 						"call %d (id %d, plan %s) returned echoed client bytes as its reply\n got: %q\n raw: %q", k, rc.reqID, call.Plan,
 						clip(res.Result), clip(string(res.RawResult)))
 				}
+				for _, o := range s.Calls {
+					if o.Notify != "" && strings.Contains(res.Result+string(res.RawResult), o.Notify) {
+						return bad(fmt.Sprintf("c08/reply-glued-with-notification:%s:echo=%v", s.Version, s.Echo),
+							"call %d (id %d): result holds a notification the server sent as a message of its own\n got: %q", k, rc.reqID, clip(res.Result))
+					}
+				}
 				for j, o := range s.Calls {
 					if j != k && strings.Contains(res.Result+string(res.RawResult), o.Nonce) {
 						if strings.Contains(res.Result, call.Nonce) && strings.Contains(res.Result, fmt.Sprintf(`message-id="%d"`, rc.reqID)) {
@@ -645,6 +741,10 @@ func RunSession(s Session) mon.Result {
 				obs["success_right_after_abandoned_straddling_reply"]++
 			}
 			straddleTimeoutSinceOK = false
+			if bigSinceOK {
+				obs["success_after_big_reply_on_the_wire"]++
+			}
+			bigSinceOK = false
 			hist = append(hist, desc+" → ok")
 			if firstOK == "" {
 				firstOK = clip(res.Result)
@@ -670,6 +770,21 @@ func RunSession(s Session) mon.Result {
 			}
 			if call.Collide != "" {
 				obs["success_with_colliding_element_in_body"]++
+			}
+			if len(rc.payload) >= bigReply {
+				obs["success_big_reply"]++
+			}
+			if call.SlowWrite > 0 {
+				obs["race_calls_verified"]++
+				var tDel time.Time
+				var ok bool
+				conn.Do(func() { tDel, ok = h.deliveredTime(rc.sentEnd) })
+				if ok && !sc.slowEnd.IsZero() && tDel.Before(sc.slowEnd) {
+					obs["race_reply_delivered_while_return_write_blocked"]++
+					if sawTimeout {
+						obs["race_reply_delivered_while_return_write_blocked_after_a_timeout"]++
+					}
+				}
 			}
 			if call.Decoy != "" {
 				obs["success_with_message_id_text_in_body"]++
@@ -702,6 +817,10 @@ func RunSession(s Session) mon.Result {
 				}
 				cause := fmt.Sprintf("%s:echo=%v:after-%s", s.Version, s.Echo, h.prevOutcome)
 				switch {
+				case curSlow:
+					cause = fmt.Sprintf("%s:reply-raced-return-write:after-%s", s.Version, h.prevOutcome)
+				case bigSinceOK:
+					cause = fmt.Sprintf("%s:after-big-reply:after-%s", s.Version, h.prevOutcome)
 				case rc.cutInAttr && call.Decoy != "":
 					cause = s.Version + ":chunk-boundary-inside-message-id-attribute+message-id-text-in-body"
 				case rc.cutInAttr:
@@ -772,6 +891,10 @@ func RunSession(s Session) mon.Result {
 			}
 		}
 		gen = conn.Generated()
+		obs["big_replies_sent"] = int64(h.bigSent)
+		obs["big_reply_followed_back_to_back_by_reply"] = int64(h.bigThenReply)
+		obs["big_reply_followed_back_to_back_by_notification"] = int64(h.bigThenNotif)
+		obs["notifications_sent"] = int64(h.notifs)
 		for i := range h.recs {
 			if s.Calls[i].Plan == "late" && h.recs[i].sent {
 				obs["late_replies_released"]++
@@ -859,6 +982,13 @@ func (h *harness) afterCall(conn *devsim.Conn, k int) {
 	})
 }
 
+func prefix(s string, n int) string {
+	if len(s) > n {
+		return s[:n]
+	}
+	return s
+}
+
 func clipInts(a []int) []int {
 	if len(a) > 24 {
 		return a[:24]
@@ -896,6 +1026,8 @@ func init() {
 				"the echo of the client's own request is not a server message: in half of the echoing sessions it carries no mark, so one read may hold the tail of the echo (delimiter, returns) and part or all of the reply that follows",
 			"in 2/3 of the unmarked-echo sessions the last 1-8 bytes of the echo of the client's hello stay in the transport until the first request is written (one read then carries the hello echo's delimiter and the beginning of the first request's echo)",
 			"a straddling reply's head is sent after the call's last write and nothing else enters the stream until its tail is out; sessions with a raised read delay use whole/4096-byte reads and abandon the transport before Close (Channel.Close would wait ReadDelay^2/1000)",
+			"profile big: replies of 150-300 KiB (now, or late and released with/just before the next request) directly followed by the next reply or by a notification sent as a message of its own; read delay default..5 ms and a debug logger taking 0-3 ms per 'channel read' line, so that the NETCONF read loop runs behind the channel's",
+			"profile race: the server answers the moment the request is complete while the client's following return write blocks 50-300 ms before reaching the device (transport wrapper in this package), with and without an earlier timeout on the session",
 			"a planned-now reply is sent either the moment the request is complete (before the echo of the trailing return) or after the call's last transport write (nothing follows the reply)",
 			"the server answers with message-id=\"N\" in double quotes, N the id of the request, and replies never precede the complete request",
 			"random reply bodies and request arguments contain none of: ']]>]]>', '#', '</rpc>', 'message-id', 'subscription-id' (checked by brute force by the generator); " +
